@@ -48,6 +48,12 @@ def check(ctx):
                 found = True
                 ctx.violation("counterexample", "disk (%s): the race detector reports a data race inside the library" % impl,
                               {"proto": "hconc-disk-race", "impl": impl, "args": args}, expected="no data race", observed=report)
+        # ---- the one-client case on a large sparse file disk: operations on distinct addresses (also addresses that agree modulo
+        #      2^20 or 2^32) never interfere
+        import c09
+        f2, st2 = c09.explore(ctx, build, ["big"], lambda s: ["file"], "C10")
+        stats["sequential-big-file"] = {"rounds": st2["histories"], "operations": st2["ops"], "overlapping_pairs": 0, "verdicts": {}}
+        found = found or f2
     finally:
         shutil.rmtree(scratch, ignore_errors=True)
     C.report_broken_obligations(ctx, build, found)
